@@ -93,6 +93,13 @@ Definition spec_ok (tries : nat) (pay : N) (cin hin : list shard_in) (cancel : o
    carried exactly these bytes and count, another number otherwise *)
 Definition the_pay : N := 0%N.
 
+Record bulk_obs := mkB {
+  b_pay : N; b_cin : list shard_in; b_hin : list shard_in;
+  b_cord : list (list nat); b_hord : list (list nat); b_cancel : option nat;
+  b_ok : bool; b_log : list visit }.
+Definition obs_in (b : bulk_obs) : bulk_in :=
+  mkBI (b_pay b) (b_cin b) (b_hin b) (b_cord b) (b_hord b) (b_cancel b).
+
 Inductive case :=
 (* tries = consts.BulkMaxTries; cin/hin = scripts of the long-term / hot tier; cord/hord = the
    shard orders the implementation was observed to use, one per sendBulkToStores invocation
@@ -100,15 +107,32 @@ Inductive case :=
    made done at the end of the k-th shard visit (0 = before the call); impl_ok = (StoreDocuments returned nil);
    impl_log = observed shard visits with the calls of each (sorted by replica) *)
 | CBulk (tries : nat) (cin hin : list shard_in) (cord hord : list (list nat)) (cancel : option nat)
-        (impl_ok : bool) (impl_log : list visit).
+        (impl_ok : bool) (impl_log : list visit)
+(* a sequence of bulks on ONE client object: for every bulk its payload identifier, scripts,
+   observed orders / context expiry, result and the visits logged while it ran (a call's payload
+   identifier is that of the bulk whose bytes it carried) *)
+| CSeq (tries : nat) (bs : list bulk_obs).
 
 (* an order is legal iff it is a permutation of 0..n-1 *)
 Definition legal_order (n : nat) (o : list nat) : bool :=
   Nat.eqb (length o) n && forallb (fun i => existsb (Nat.eqb i) o) (seq 0 n).
 
 (* model output = implementation output, for the observed (legal) shard orders, all consumed *)
+Definition bulk_agrees (b : bulk_obs) (m : st * list visit * bool) : bool :=
+  let '(s, log, ok) := m in
+  forallb (legal_order (length (b_cin b))) (b_cord b) && forallb (legal_order (length (b_hin b))) (b_hord b)
+  && Bool.eqb ok (b_ok b) && list_eqb visit_eqb log (b_log b)
+  && match cold_ord s, hot_ord s with [], [] => true | _, _ => false end.
+Fixpoint all2 {A B} (f : A -> B -> bool) (a : list A) (b : list B) : bool :=
+  match a, b with
+  | [], [] => true
+  | x :: a', y :: b' => f x y && all2 f a' b'
+  | _, _ => false
+  end.
+
 Definition case_agrees (c : case) : bool :=
   match c with
+  | CSeq tries bs => all2 bulk_agrees bs (store_sequence tries (map obs_in bs))
   | CBulk tries cin hin cord hord cancel impl_ok impl_log =>
       let '(s, log, ok) := store_documents tries the_pay cin hin cord hord cancel in
       forallb (legal_order (length cin)) cord && forallb (legal_order (length hin)) hord
@@ -119,6 +143,8 @@ Definition case_agrees (c : case) : bool :=
 (* implementation output satisfies the property (independent of the model's algorithm) *)
 Definition case_spec_ok (c : case) : bool :=
   match c with
+  | CSeq tries bs =>
+      forallb (fun b => spec_ok tries (b_pay b) (b_cin b) (b_hin b) (b_cancel b) (b_ok b) (b_log b)) bs
   | CBulk tries cin hin _ _ cancel impl_ok impl_log => spec_ok tries the_pay cin hin cancel impl_ok impl_log
   end.
 
